@@ -447,5 +447,22 @@ def unit_character_spellings():
             except Exception as e: return {"expected": "InterfaceError for %r" % t, "observed": repr(e)}
             return {"expected": "malformed spelling %r refused" % t, "observed": "accepted as %r" % got}
         r2 = sweep("C11/spellings/malformed spellings are refused", bad_cases(), bad_check, "bounded", "18 malformed spellings", function="data.DataFormat._validated_character", unit="C11.spellings", props=["C11", "C10"])
-        return [r1, r2]
+        # through the CID reader: the value cell of a D row reaches the property as it is written (only names are case-insensitive)
+        def cid_cases():
+            for prop_name, attr in (("item delimiter", "item_delimiter"),):      # the only character property without a closed list of admissible values
+                for text, ch in (("X", "X"), ('"Q"', "Q"), ("88", "X"), ("0x5A", "Z"), ("Tab", "\t"), ('"\\x41"', "A"), ("'\u00c4'", "\u00c4")):
+                    yield (prop_name, attr, text, ch)
+        def cid_check(c):
+            from cutplace import interface
+            prop_name, attr, text, ch = c
+            cid = interface.Cid()
+            rows = [["D", "Format", "Delimited"], ["d", prop_name.upper() if len(text) % 2 else prop_name.title(), text], ["f", "a"]]
+            if attr in ("decimal_separator", "thousands_separator"): rows.insert(1, ["d", "item delimiter", ";"])
+            try: cid.read("cid", rows)
+            except errors.InterfaceError as e: return {"expected": "CID with %s = %s accepted" % (prop_name, text), "observed": str(e)[:120]}
+            got = getattr(cid.data_format, attr)
+            return None if got == ch else {"expected": "%s %r denotes %r" % (prop_name, text, ch), "observed": repr(got)}
+        r3 = sweep("C11/spellings/the value cell of a data format row reaches the property as written (through Cid.read)", cid_cases(), cid_check, "bounded", "item delimiter x 7 spellings with upper-case letters, property name in varying case",
+                   describe=lambda c: {"property": c[0], "text": c[2]}, function="interface.Cid.add_data_format_row + data.DataFormat.set_property", unit="C11.spellings", props=["C11"])
+        return [r1, r2, r3]
     return NativeUnit("C11.spellings", "bounded stand-in for the character spellings (tokenizer + unicode_escape)", ["C11", "C10"], run, kind="bounded")
